@@ -5,7 +5,7 @@ import re
 from ..pycalls import CallGraph
 from ..pycfg import CFG, walk_no_nested, contained, handler_reraises, enclosing_trys, broad_handler
 from ..pyflow import Taint
-from ..source import atoms, atom_key, side, truth as cond_truth, AnalysisError, find_function, first_line, src, functions, qualname, enclosing_function
+from ..source import dict_key_writes, atoms, atom_key, side, truth as cond_truth, AnalysisError, find_function, first_line, src, functions, qualname, enclosing_function
 from . import C13
 from .. import rails, colang2
 
@@ -43,6 +43,8 @@ def run(ctx):
     b_fallback_source(ctx)
     a_utterance_verbatim(ctx)
     a_interpolation_escape(ctx)
+    a_predefined_table(ctx)
+    b_postprocess_total(ctx)
     b_guards_live(ctx)
     b_dynamic_flow_bounded(ctx)
 
@@ -666,6 +668,83 @@ def interpolation_is_total(ctx):
             if hf is not None:
                 handled |= _escaped_chars(hf)
     return all(c in handled for c in LITERAL_META)
+
+
+POST_MODULES = ("nemoguardrails/actions/llm/utils.py", "nemoguardrails/logging/processing_log.py", "nemoguardrails/rails/llm/utils.py")
+
+
+def b_postprocess_total(ctx):
+    """After the events of a turn exist, generate_async post-processes them OUTSIDE any containment (history rendering, log computation, cache key).  The events carry the
+    LLM's text (`script`, `text`, `content`), which may be empty, blank or one very long line, so those helpers must not take strings apart with operations that raise on
+    an unexpected shape: tuple / starred unpacking of `.split()` / `.splitlines()`, `.splitlines()[k]`, `.split(...)[k]` with k != 0, `.index()` / `.rindex()`."""
+    lr = ctx.tree.ast("nemoguardrails/rails/llm/llmrails.py")
+    ga = find_function(lr, "generate_async")
+    if ga is None:
+        raise AnalysisError("generate_async not found", anchor="nemoguardrails/rails/llm/llmrails.py::generate_async")
+    names = set()
+    for c in walk_no_nested(ga):
+        if isinstance(c, ast.Call) and isinstance(c.func, ast.Name) and contained(c, ga) is None:
+            names.add(c.func.id)
+    n = 0
+    for rel in POST_MODULES:
+        if not ctx.tree.exists(rel):
+            continue
+        t = ctx.tree.ast(rel)
+        for f in functions(t):
+            if f.name not in names or enclosing_function(f) is not None:
+                continue
+            n += 1
+            bad = []
+            for x in ast.walk(f):
+                def splitcall(e):
+                    return isinstance(e, ast.Call) and isinstance(e.func, ast.Attribute) and e.func.attr in ("split", "rsplit", "splitlines")
+                if isinstance(x, ast.Assign) and isinstance(x.targets[0], (ast.Tuple, ast.List)) and splitcall(x.value):
+                    bad.append(x)
+                elif isinstance(x, ast.Subscript) and splitcall(x.value) and not isinstance(x.slice, ast.Slice):
+                    k = x.slice.value if isinstance(x.slice, ast.Constant) else None
+                    if x.value.func.attr == "splitlines" or k not in (0,):
+                        bad.append(x)
+                elif isinstance(x, ast.Call) and isinstance(x.func, ast.Attribute) and x.func.attr in ("index", "rindex") and contained(x, f) is None:
+                    bad.append(x)
+            ctx.check("C17.b.postprocess-total", rel, f.name, "strings of the events are not taken apart by partial operations", not bad,
+                      "no operation in this post-processing helper raises on an empty / one-line / odd LLM text" if not bad else
+                      "`%s` raises for some texts (an empty or whitespace-only completion has no first line, a text without the separator has no second part): the helper runs after "
+                      "the turn, outside any containment, so generate() raises instead of returning the reply" % first_line(bad[0], 70), line=(bad[0].lineno if bad else f.lineno))
+    ctx.floor("C17.b.postprocess-total", "nemoguardrails/rails/llm/llmrails.py", "post-processing helpers called uncontained from generate_async", n, 2)
+
+
+def a_predefined_table(ctx):
+    """Predefined bot messages are TEMPLATES: generate_bot_message renders them with Jinja and `$var` substitution and sends them past the output rails.  That is sound only
+    while the table holds what the configuration's author wrote.  Who may write it: code that runs when the configuration is loaded - never a function that is (or is
+    called from) a function that talks to the LLM, otherwise LLM-written text becomes a template."""
+    n = 0
+    for rel in (GEN1, GEN2):
+        t = ctx.tree.ast(rel)
+        fns = {f.name: f for f in functions(t)}
+        calls = {name: {c.func.attr if isinstance(c.func, ast.Attribute) else getattr(c.func, "id", None) for c in walk_no_nested(f) if isinstance(c, ast.Call)} for name, f in fns.items()}
+        talks = {name for name, f in fns.items() if any(isinstance(c, ast.Call) and (src(c.func).split(".")[-1] in ("llm_call", "_call_llm", "agenerate", "ainvoke")) for c in walk_no_nested(f))}
+        # functions from which an LLM-calling function ... calls `name` (transitively): callers closure
+        def callers_of(name):
+            seen, work = set(), [name]
+            while work:
+                x = work.pop()
+                for g, cs in calls.items():
+                    if x in cs and g not in seen:
+                        seen.add(g)
+                        work.append(g)
+            return seen
+        for name, f in fns.items():
+            stores = [m for m, k, v, site in dict_key_writes(f) if m.endswith("bot_messages")] + \
+                [src(a.targets[0].value) for a in walk_no_nested(f) if isinstance(a, ast.Assign) and isinstance(a.targets[0], ast.Subscript) and src(a.targets[0].value).endswith("bot_messages")]
+            if not stores:
+                continue
+            n += 1
+            tainted_by = sorted(({name} | callers_of(name)) & talks)
+            ctx.check("C17.a.predefined-table", rel, qualname(f), "store into %s" % stores[0], not tainted_by,
+                      "the predefined-message table is written at load time only (no LLM-calling function reaches this store)" if not tainted_by else
+                      "the predefined-message table is written from %s, which calls the LLM: text written by the LLM becomes a predefined TEMPLATE - generate_bot_message renders it "
+                      "(`{{ ... }}` and `$name` in the completion are evaluated against the conversation context) and skips the output rails for it" % tainted_by, line=f.lineno)
+    ctx.floor("C17.a.predefined-table", GEN1, "writers of the predefined bot-message table", n, 1)
 
 
 def a_interpolation_escape(ctx):
